@@ -78,107 +78,193 @@ def check(run):
     check_caches(run, [ci.mod], 'C17-K')
 
 
+def _poly_eval(N):
+    """Evaluator for a polygon with N symbolic vertices: self._vertices.shape[0] = N, self._vertices[:, c][k] = x_k / y_k."""
+    from ..program import const_fold
+
+    class PE(SymEval):
+        def attribute(self, n):
+            d = dotted(n)
+            if d in ('self.cross_sectional_area',):
+                return L('AREA')
+            if d == 'self.cross_section_centroid.x':
+                return L('CX')
+            if d == 'self.cross_section_centroid.y':
+                return L('CY')
+            return super().attribute(n)
+
+        def subscript(self, n):
+            if norm(n.value) == 'self._vertices.shape' and norm(n.slice) == '0':
+                return C(N)
+            # array views
+            if norm(n.value) == 'self._vertices' and isinstance(n.slice, ast.Tuple) and len(n.slice.elts) == 2:
+                r, c = n.slice.elts
+                cc = const_fold(c)
+                if isinstance(r, ast.Slice) and r.lower is None and r.upper is None and cc in (0, 1):
+                    return L('ARR:%s' % 'xy'[cc])
+                rv = self.ev(r)
+                if rv.is_const() and cc in (0, 1):
+                    k = rv.const_value()
+                    if k.denominator == 1:
+                        return L('%s%d' % ('xy'[cc], int(k) % N))
+            base = self.ev(n.value) if isinstance(n.value, ast.Name) else None
+            if base is not None and base.key() in ('ARR:x', 'ARR:y') and not isinstance(n.slice, (ast.Tuple, ast.Slice)):
+                k = self.ev(n.slice)
+                if k.is_const() and k.const_value().denominator == 1:
+                    kk = int(k.const_value())
+                    if -N <= kk < N:
+                        return L('%s%d' % (base.key()[-1], kk % N))
+                    return L('OUT_OF_RANGE(%s[%d])' % (base.key()[-1], kk))
+            return super().subscript(n)
+
+        def ev(self, n):
+            if isinstance(n, ast.BinOp) and isinstance(n.op, (ast.Mod, ast.FloorDiv)):
+                a_, b_ = self.ev(n.left), self.ev(n.right)
+                if a_.is_const() and b_.is_const() and b_.const_value() != 0:
+                    x_, y_ = a_.const_value(), b_.const_value()
+                    if x_.denominator == 1 and y_.denominator == 1:
+                        return C(int(x_) % int(y_)) if isinstance(n.op, ast.Mod) else C(int(x_) // int(y_))
+            return super().ev(n)
+
+        def call(self, n):
+            d = dotted(n.func)
+            if d in ('abs', 'fabs', 'np.abs') and len(n.args) == 1:
+                v = self.ev(n.args[0])
+                return L('ABS(%s)' % v.key())
+            if d == 'len' and len(n.args) == 1 and self.ev(n.args[0]).key() in ('ARR:x', 'ARR:y'):
+                return C(N)
+            if d == 'new_point2d' and len(n.args) == 2:
+                a_, b_ = self.ev(n.args[0]), self.ev(n.args[1])
+                name = 'POINT#%d' % len(POINTS)
+                POINTS[name] = (a_, b_)
+                return L(name)
+            return super().call(n)
+    PE.points = POINTS = {}
+    return PE
+
+
+def _shoelace(N):
+    s = C(0)
+    cx = C(0)
+    cy = C(0)
+    for i in range(N):
+        j = (i + 1) % N
+        cr = L('x%d' % i) * L('y%d' % j) - L('x%d' % j) * L('y%d' % i)
+        s = s + cr
+        cx = cx + (L('x%d' % i) + L('x%d' % j)) * cr
+        cy = cy + (L('y%d' % i) + L('y%d' % j)) * cr
+    return s, cx, cy
+
+
+def _run_paths(fn, N, lookup=None):
+    from ..pathinterp import PathInterp
+    from ..inline import flatten
+    g = flatten(fn, lookup) if lookup is not None else fn
+    ev = _poly_eval(N)
+    return PathInterp(g, (), {}, evaluator=ev, max_paths=32).run(), ev.points
+
+
 def _r1(run, prog, ci):
-    run.describe('C17-R1', 'shoelace / Bourke terms, closing terms, divisors, volume and total volume')
+    from ..inline import class_lookup
+    run.describe('C17-R1', 'area, centroid, volume and total volume decided on the values the code computes for polygons of 3, 4 and 5 symbolic vertices')
     K = ci.mod.name + '|AxisymmetricVoxel|'
-    cross = L('x@I') * L('y@J') - L('x@J') * L('y@I')
-    want = {'area': cross, 'cx': (L('x@I') + L('x@J')) * cross, 'cy': (L('y@I') + L('y@J')) * cross}
-    area_terms = {}
-    for pname, accs in (('cross_sectional_area', ['area']), ('cross_section_centroid', ['cx', 'cy', 'area'])):
+    look = class_lookup(prog, ci)
+    for pname in ('cross_sectional_area', 'cross_section_centroid'):
         fn = ci.getters.get(pname)
         if fn is None:
             raise AnalysisError('anchored property vanished: AxisymmetricVoxel.%s' % pname)
         run.functions += 1
-        t = _terms(fn)
-        if t is None:
-            run.undecided('C17-R1', pname, 'expected exactly one loop')
-            continue
-        lp, acc_loop, acc_close = t
-        defs = {norm(tg): norm(v) for tg, v, st in stores(fn) if isinstance(st, ast.Assign)}
-        arrays = {}
-        for nm, v in defs.items():
-            if v == 'self._vertices[:, 0]':
-                arrays[nm] = 'x'
-            if v == 'self._vertices[:, 1]':
-                arrays[nm] = 'y'
-        nvar = [k for k, v in defs.items() if v == 'self._vertices.shape[0]']
-        run.subject('C17-R1')
-        if sorted(arrays.values()) != ['x', 'y'] or not nvar:
-            run.fail('C17-R1', K + pname + '|coordinates', ci.mod.relpath, fn.lineno,
-                     '%s does not read r from column 0 and z from column 1 of the vertex array: %s' % (pname, defs))
-            continue
-        nvar = nvar[0]
-        if norm(lp.iter) == 'range(%s - 1)' % nvar and isinstance(lp.target, ast.Name):
-            run.ok('C17-R1', pname + ' loop', 'edges (v_i, v_i+1) for i in range(n - 1)')
-        else:
-            run.fail('C17-R1', K + pname + '|loop-range', ci.mod.relpath, lp.lineno, '%s loops over %s, expected range(n - 1)' % (pname, norm(lp.iter)))
-            continue
-        i = lp.target.id
-        for a in accs:
+        for N in (3, 4, 5):
             run.subject('C17-R1')
-            if a not in acc_loop or a not in acc_close:
-                run.fail('C17-R1', K + '%s|missing-term:%s' % (pname, a), ci.mod.relpath, fn.lineno,
-                         "%s: accumulator '%s' lacks its %s term: the polygon is not closed" % (pname, a, 'loop' if a not in acc_loop else 'closing'))
+            try:
+                paths, points = _run_paths(fn, N, look)
+            except Exception as e:
+                run.undecided('C17-R1', '%s N=%d' % (pname, N), 'cannot interpret: %s' % e)
                 continue
-            lt = PolyEval(arrays, i, nvar, False).ev(acc_loop[a].value)
-            ct = PolyEval(arrays, i, nvar, True).ev(acc_close[a].value)
-            if pname == 'cross_sectional_area' or a == 'area':
-                area_terms[(pname, a)] = lt
-            if not lt.eq(want[a]):
-                run.fail('C17-R1', K + '%s|loop-term:%s' % (pname, a), ci.mod.relpath, acc_loop[a].lineno,
-                         "%s: the edge term of '%s' is %s; documented: %s" % (pname, a, lt, want[a]))
-            elif not ct.eq(lt):
-                run.fail('C17-R1', K + '%s|closing-term:%s' % (pname, a), ci.mod.relpath, acc_close[a].lineno,
-                         "%s: the closing term of '%s' is %s, which is not the edge term %s for the edge (v_n-1, v_0)" % (pname, a, ct, lt))
+            S, CXs, CYs = _shoelace(N)
+            bad = None
+            for p in paths:
+                v = p.returned
+                if v is None:
+                    bad = ('returns nothing', p)
+                    break
+                if pname == 'cross_sectional_area':
+                    want = [L('ABS(%s)' % S.key()) / C(2), L('ABS(%s)' % (C(0) - S).key()) / C(2), L('ABS(%s)' % (S / C(2)).key()), L('ABS(%s)' % ((C(0) - S) / C(2)).key())]
+                    if not any(v.eq(w) for w in want):
+                        bad = (v, p)
+                        break
+                else:
+                    A = S / C(2)
+                    wx, wy = CXs / (C(6) * A), CYs / (C(6) * A)
+                    comp = points.get(v.key())
+                    if comp is None or not (comp[0].eq(wx) and comp[1].eq(wy)):
+                        bad = (('point(%s, %s)' % (comp[0].key()[:100], comp[1].key()[:100])) if comp else v, p)
+                        break
+            if bad:
+                got = bad[0] if isinstance(bad[0], str) else bad[0].key()[:220]
+                run.fail('C17-R1', K + '%s|value' % pname, ci.mod.relpath, fn.lineno,
+                         '%s of a polygon with %d vertices is %s on the path %s; documented: %s' % (
+                             pname, N, got, dict(bad[1].decisions),
+                             '|sum_i (x_i y_(i+1) - x_(i+1) y_i)| / 2 over all edges including the closing one' if pname == 'cross_sectional_area'
+                             else 'sum_i (x_i + x_(i+1)) cross_i / (6 A) with the signed area A (Bourke), same for y'))
             else:
-                run.ok('C17-R1', '%s %s terms' % (pname, a), '%s ; closing term = same under i -> n-1, i+1 -> 0' % lt)
-        # initial values
-        run.subject('C17-R1')
-        inits = {a: defs.get(a) for a in accs}
-        if all(v == '0' for v in inits.values()):
-            run.ok('C17-R1', pname + ' accumulators start at 0', inits, sample=False)
-        else:
-            run.fail('C17-R1', K + pname + '|initial', ci.mod.relpath, fn.lineno, '%s: accumulators start at %s' % (pname, inits))
-    # returned values
-    fn = ci.getters['cross_sectional_area']
-    ret = [r for r in ast.walk(fn) if isinstance(r, ast.Return)]
-    run.subject('C17-R1')
-    if ret and norm(ret[-1].value).replace(' ', '') in ('abs(area)/2', '0.5*abs(area)', 'abs(area)*0.5', 'fabs(area)/2'):
-        run.ok('C17-R1', 'area', 'abs(sum) / 2')
-    else:
-        run.fail('C17-R1', K + 'cross_sectional_area|result', ci.mod.relpath, fn.lineno,
-                 'cross_sectional_area returns %s; documented: |shoelace sum| / 2 (orientation independent)' % (norm(ret[-1].value) if ret else None))
-    fn = ci.getters['cross_section_centroid']
-    divs = [(norm(st.target), norm(st.value).replace(' ', '')) for st in ast.walk(fn) if isinstance(st, ast.AugAssign) and isinstance(st.op, ast.Div)]
-    ret = [r for r in ast.walk(fn) if isinstance(r, ast.Return)]
-    run.subject('C17-R1')
-    if divs == [('area', '2'), ('cx', '6*area'), ('cy', '6*area')] and ret and norm(ret[-1].value).replace(' ', '') == 'new_point2d(cx,cy)':
-        run.ok('C17-R1', 'centroid divisors', 'cx, cy / (6 * signed area); returns (cx, cy)')
-    else:
-        run.fail('C17-R1', K + 'cross_section_centroid|divisors', ci.mod.relpath, fn.lineno,
-                 'centroid divides %s and returns %s; documented: area/2 (signed), cx / (6 area), cy / (6 area), point (cx, cy)' % (divs, norm(ret[-1].value) if ret else None))
+                run.ok('C17-R1', '%s N=%d' % (pname, N), 'equals the shoelace / Bourke value for %d symbolic vertices on %d path(s)' % (N, len(paths)), sample=(N == 3))
+    # volume = 2 pi * centroid radius * area on every path (zero-area polygons excepted)
     fn = ci.getters.get('volume')
+    if fn is None:
+        raise AnalysisError('anchored property vanished: AxisymmetricVoxel.volume')
     run.subject('C17-R1')
-    rets = [norm(r.value).replace(' ', '') for r in ast.walk(fn) if isinstance(r, ast.Return)] if fn else []
-    if rets and rets[0] in ('2*PI*self.cross_section_centroid.x*self.cross_sectional_area', '2*M_PI*self.cross_section_centroid.x*self.cross_sectional_area'):
-        run.ok('C17-R1', 'volume', '2 pi * centroid.x * area')
-    else:
-        run.fail('C17-R1', K + 'volume|form', ci.mod.relpath, (fn or ci.node).lineno, 'volume returns %s; documented: 2 pi * centroid radius * area' % rets)
+    try:
+        paths, _pts = _run_paths(fn, 4, look)
+        bad = None
+        for p in paths:
+            v = p.returned
+            wants = [C(2) * L(pi) * L('CX') * L('AREA') for pi in ('PI', 'M_PI', 'pi', 'np.pi', 'math.pi')]
+            if v is None or not any(v.eq(w) for w in wants):
+                bad = (v, p)
+                break
+        if bad:
+            run.fail('C17-R1', K + 'volume|form', ci.mod.relpath, fn.lineno,
+                     'volume returns %s on the path %s; documented: 2 pi * centroid radius * area for every polygon' % (
+                         bad[0].key()[:160] if bad[0] is not None else None, dict(bad[1].decisions)))
+        else:
+            run.ok('C17-R1', 'volume', '2 pi * centroid.x * area on %d path(s)' % len(paths))
+    except Exception as e:
+        run.undecided('C17-R1', 'volume', 'cannot interpret: %s' % e)
     # total volume of a collection
     owners = [c for c in prog.classes.values() if 'total_volume' in c.getters]
     run.subject('C17-R1')
-    ok = False
+    if not owners:
+        raise AnalysisError('anchored property vanished: total_volume')
     for c in owners:
         g = c.getters['total_volume']
-        lp = [l for l in ast.walk(g) if isinstance(l, ast.For)]
-        if len(lp) == 1 and norm(lp[0].iter) == 'self._voxels' and any(isinstance(s, ast.AugAssign) and isinstance(s.op, ast.Add)
-                                                                        and norm(s.value) == norm(lp[0].target) + '.volume' for s in lp[0].body):
-            ok = True
-    if ok:
-        run.ok('C17-R1', 'total_volume', 'sum of voxel.volume over all voxels')
-    else:
-        run.fail('C17-R1', ci.mod.name + '|VoxelCollection|total_volume|sum', ci.mod.relpath, 0, 'total_volume is not the sum of voxel.volume over every voxel')
-    run.floor('C17-R1', 10)
+        lps = [l for l in ast.walk(g) if isinstance(l, ast.For)]
+        gens = [x for x in ast.walk(g) if isinstance(x, (ast.GeneratorExp, ast.ListComp))]
+        it = tgt = term = None
+        if len(lps) == 1 and isinstance(lps[0].target, ast.Name):
+            it, tgt = norm(lps[0].iter), lps[0].target.id
+            from ..inline import propagate
+            body = propagate(ast.FunctionDef(name='b', args=g.args, body=list(lps[0].body), decorator_list=[], lineno=g.lineno)).body
+            for s_ in body:
+                if isinstance(s_, ast.AugAssign) and isinstance(s_.op, ast.Add):
+                    term = norm(s_.value)
+                elif isinstance(s_, ast.Assign) and isinstance(s_.value, ast.BinOp) and isinstance(s_.value.op, ast.Add) and norm(s_.targets[0]) in (
+                        norm(s_.value.left), norm(s_.value.right)):
+                    term = norm(s_.value.right) if norm(s_.targets[0]) == norm(s_.value.left) else norm(s_.value.left)
+        elif len(gens) == 1 and len(gens[0].generators) == 1:
+            it, tgt, term = norm(gens[0].generators[0].iter), norm(gens[0].generators[0].target), norm(gens[0].elt)
+        if it is None or term is None:
+            run.undecided('C17-R1', 'total_volume', 'accumulation not recognised')
+        elif term != '%s.volume' % tgt:
+            run.fail('C17-R1', ci.mod.name + '|%s|total_volume|term' % c.name, ci.mod.relpath, g.lineno, 'total_volume accumulates %s per voxel, not its volume' % term)
+        elif it in ('self._voxels',):
+            run.ok('C17-R1', 'total_volume', 'sum of voxel.volume over all voxels')
+        elif it in ('self.children', 'self._active_voxels'):
+            run.fail('C17-R1', ci.mod.name + '|%s|total_volume|sum' % c.name, ci.mod.relpath, g.lineno,
+                     'total_volume sums over %s: only the voxels currently attached as active emitters, not every voxel of the collection' % it)
+        else:
+            run.undecided('C17-R1', 'total_volume', 'iterates %s' % it)
+    run.floor('C17-R1', 8)
 
 
 def _r2(run, ci):
@@ -187,6 +273,8 @@ def _r2(run, ci):
     fn = ci.methods.get('emissivity_from_function')
     if fn is None:
         raise AnalysisError('anchored method vanished: AxisymmetricVoxel.emissivity_from_function')
+    from ..inline import flatten, module_lookup
+    fn = flatten(fn, module_lookup(ci.mod))
     loops = [l for l in fn.body if isinstance(l, ast.For)]
     if len(loops) != 2:
         run.undecided('C17-R2', 'emissivity_from_function', 'expected two loops')
